@@ -8,7 +8,9 @@
 //     LocalLinearization is applied; prints  lin <stored value> <rhs> <xNorthAngle>
 #include <cmath>
 #include <fstream>
+#include <map>
 #include <memory>
+#include <vector>
 #include <sstream>
 #include <gnu_gama/gon2deg.h>
 #include <gnu_gama/local/cluster.h>
@@ -141,6 +143,33 @@ int main()
       qnum = q.str() != "" && (q < PointID("\x01"));
       std::cout << "ok " << (p < q) << " " << (q < p) << " " << (p == q) << " " << (p != q) << " " << pnum << " " << qnum
                 << " " << hex_bytes(p.str()) << " " << hex_bytes(q.str()) << "\n";
+    } else if (t[0] == "pid3" && t.size() == 4) {
+      // transitivity needs three identifiers: all six ordered pairs of (a, b, c)
+      string a, b, c;
+      if (!unhex_bytes(t[1], a) || !unhex_bytes(t[2], b) || !unhex_bytes(t[3], c)) { std::cout << "bad-op\n"; continue; }
+      PointID p(a), q(b), r(c);
+      std::cout << "ok " << (p < q) << " " << (q < p) << " " << (q < r) << " " << (r < q) << " " << (p < r) << " " << (r < p) << "\n";
+    } else if (t[0] == "pmap" && t.size() >= 2) {
+      // what the library does with the order: a std::map<PointID,int> (PointData is one) filled in the given order;
+      // prints its size, how many of the inserted identifiers find() finds again, whether iteration is ascending
+      std::map<PointID, int> m;
+      std::vector<PointID> ids;
+      bool bad = false;
+      for (size_t k = 1; k < t.size(); k++) {
+        string a;
+        if (!unhex_bytes(t[k], a)) { bad = true; break; }
+        ids.push_back(PointID(a));
+      }
+      if (bad) { std::cout << "bad-op\n"; continue; }
+      for (size_t k = 0; k < ids.size(); k++) m[ids[k]] = int(k);
+      size_t found = 0;
+      for (size_t k = 0; k < ids.size(); k++) if (m.find(ids[k]) != m.end()) found++;
+      bool asc = true;
+      for (std::map<PointID, int>::const_iterator i = m.begin(); i != m.end(); ++i) {
+        std::map<PointID, int>::const_iterator j = i; ++j;
+        if (j != m.end() && !(i->first < j->first)) asc = false;
+      }
+      std::cout << "ok " << m.size() << " " << found << " " << asc << "\n";
     } else if (t[0] == "dms" && t.size() == 2) {
       string a;
       if (!unhex_bytes(t[1], a)) { std::cout << "bad-op\n"; continue; }
